@@ -151,6 +151,13 @@ def mkval(x, kind: int = 0):
     return [None, 5, "txt", {"a": 1}, b"by", Box(1)][kind]
 
 
+@command
+def subfail(x, context=None):
+    """reports failure through the state it returns: hands back the (failed) state of a sub-evaluation"""
+    CALLS.append("subfail")
+    return context.evaluate("bad/q")
+
+
 class StubChild:
     """induction hypothesis: the recursive evaluation returns *some* state (prepared by the obligation)"""
 
